@@ -26,49 +26,88 @@ Qed.
 (* no character that could start the options *)
 Definition quiet_char (c : ascii) : bool := negb (opt_start c).
 
-Lemma find_options_quiet s : str_forall quiet_char s = true -> find_options s = (s, "").
-Proof.
-  induction s as [|c s IH]; [reflexivity|]. cbn [str_forall]. intros H. apply andb_prop in H.
-  destruct H as [Hc Hs]. cbn [find_options]. destruct s as [|d r]; [reflexivity|].
-  assert (Hd : opt_start d = false).
-  { cbn [str_forall] in Hs. apply andb_prop in Hs. destruct Hs as [Hd _]. now apply negb_true_iff in Hd. }
-  rewrite Hd, andb_false_r. rewrite (IH Hs). reflexivity.
-Qed.
+(* pair-quiet: nowhere a ')' or blank followed by a letter or '*' *)
+Fixpoint pq (s : string) : bool :=
+  match s with
+  | String c rest =>
+      match rest with
+      | String d _ => negb (opt_before c && opt_start d) && pq rest
+      | EmptyString => true
+      end
+  | EmptyString => true
+  end.
+
+Lemma pq_step c d r : pq (String c (String d r)) = negb (opt_before c && opt_start d) && pq (String d r).
+Proof. reflexivity. Qed.
 
 Lemma find_options_step c d r : find_options (String c (String d r)) =
   if opt_before c && opt_start d then (String c "", String d r)
   else let '(a, b) := find_options (String d r) in (String c a, b).
 Proof. reflexivity. Qed.
 
-Lemma find_options_at s c d r : str_forall quiet_char (s ++ String c "") = true ->
+Lemma find_options_quiet s : pq s = true -> find_options s = (s, "").
+Proof.
+  induction s as [|c s IH]; [reflexivity|]. destruct s as [|d r]; [reflexivity|].
+  rewrite pq_step. intros H. apply andb_prop in H. destruct H as [Hc Hs]. apply negb_true_iff in Hc.
+  rewrite find_options_step, Hc, (IH Hs). reflexivity.
+Qed.
+
+Lemma find_options_at s c d r : pq (s ++ String c "") = true ->
   opt_before c = true -> opt_start d = true ->
   find_options (s ++ String c (String d r)) = (s ++ String c "", String d r).
 Proof.
   induction s as [|c0 s IH]; intros Hq Hb Hd.
-  - cbn [append find_options]. now rewrite Hb, Hd.
-  - cbn [append str_forall] in Hq. apply andb_prop in Hq. destruct Hq as [Hc0 Hq].
-    specialize (IH Hq Hb Hd). destruct s as [|c1 s1].
-    + cbn [append] in *. cbn [str_forall] in Hq. apply andb_prop in Hq. destruct Hq as [Hc _].
-      apply negb_true_iff in Hc. rewrite find_options_step. rewrite Hc, andb_false_r.
-      rewrite IH. reflexivity.
-    + cbn [append str_forall] in Hq. apply andb_prop in Hq. destruct Hq as [Hc1 _].
-      apply negb_true_iff in Hc1. cbn [append]. rewrite find_options_step. rewrite Hc1, andb_false_r.
+  - cbn [append]. rewrite find_options_step. now rewrite Hb, Hd.
+  - destruct s as [|c1 s1].
+    + cbn [append] in *. rewrite pq_step in Hq. apply andb_prop in Hq. destruct Hq as [Hc Hq].
+      apply negb_true_iff in Hc. rewrite find_options_step, Hc.
+      specialize (IH Hq Hb Hd). cbn [append] in IH. rewrite IH. reflexivity.
+    + cbn [append] in Hq. rewrite pq_step in Hq. apply andb_prop in Hq. destruct Hq as [Hc Hq].
+      apply negb_true_iff in Hc. cbn [append]. rewrite find_options_step, Hc.
       change (String c1 (s1 ++ String c (String d r))) with (String c1 s1 ++ String c (String d r)).
-      rewrite IH. reflexivity.
+      rewrite (IH Hq Hb Hd). reflexivity.
+Qed.
+
+Lemma pq_app s t : pq s = true -> pq t = true -> head_sat opt_start t = false -> pq (s ++ t) = true.
+Proof.
+  induction s as [|c s IH]; intros Hs Ht Hh; [exact Ht|].
+  destruct s as [|d r].
+  - cbn [append]. destruct t as [|e t']; [reflexivity|]. rewrite pq_step. cbn in Hh. rewrite Hh, andb_false_r. exact Ht.
+  - rewrite pq_step in Hs. apply andb_prop in Hs. destruct Hs as [Hc Hs].
+    change ((String c (String d r)) ++ t) with (String c (String d (r ++ t))). rewrite pq_step, Hc.
+    change (String d (r ++ t)) with (String d r ++ t). now rewrite IH.
+Qed.
+
+Lemma pq_of_forall (p : ascii -> bool) s : (forall c, p c = true -> opt_start c = false) ->
+  str_forall p s = true -> pq s = true.
+Proof.
+  intros Hp. induction s as [|c s IH]; [reflexivity|]. intros H. cbn [str_forall] in H. apply andb_prop in H.
+  destruct H as [_ Hs]. destruct s as [|d r]; [reflexivity|]. rewrite pq_step, (IH Hs).
+  cbn [str_forall] in Hs. apply andb_prop in Hs. destruct Hs as [Hd _]. now rewrite (Hp d Hd), andb_false_r.
+Qed.
+
+Lemma pq_no_before s : str_forall (fun c => negb (opt_before c)) s = true -> pq s = true.
+Proof.
+  induction s as [|c s IH]; [reflexivity|]. intros H. cbn [str_forall] in H. apply andb_prop in H.
+  destruct H as [Hc Hs]. destruct s as [|d r]; [reflexivity|]. rewrite pq_step, (IH Hs).
+  apply negb_true_iff in Hc. now rewrite Hc.
 Qed.
 
 (* ---- characters ---- *)
 Definition expr_char (c : ascii) : bool :=
   is_digit c || is_blank c || Ascii.eqb c "+" || Ascii.eqb c "-" || Ascii.eqb c "." ||
   Ascii.eqb c "#" || Ascii.eqb c "(" || Ascii.eqb c ")" || Ascii.eqb c ":".
-(* a density as the deck generators write it: digits, sign, point (no E exponent letter) *)
-Definition rho_char (c : ascii) : bool :=
-  is_digit c || Ascii.eqb c "+" || Ascii.eqb c "-" || Ascii.eqb c ".".
+(* a density token: anything but blanks and parentheses ("-2.7", "1.0E-3", "6.02e-2") *)
+Definition rho_char (c : ascii) : bool := density_char c && negb (Ascii.eqb c ")").
 
 Lemma expr_char_quiet c : expr_char c = true -> quiet_char c = true.
 Proof. destruct c as [[] [] [] [] [] [] [] []]; intros H; try discriminate H; reflexivity. Qed.
-Lemma rho_char_facts c : rho_char c = true -> quiet_char c = true /\ density_char c = true /\ nonblank c = true.
-Proof. destruct c as [[] [] [] [] [] [] [] []]; intros H; try discriminate H; repeat split; reflexivity. Qed.
+Lemma rho_char_facts c : rho_char c = true -> negb (opt_before c) = true /\ density_char c = true /\ nonblank c = true.
+Proof.
+  unfold rho_char, density_char, opt_before, nonblank. intros H. apply andb_prop in H. destruct H as [H Hp].
+  apply andb_prop in H. destruct H as [Hb Ho]. rewrite Hb, Ho. apply negb_true_iff in Hp. rewrite Hp.
+  apply negb_true_iff in Hb. rewrite Hb. auto.
+Qed.
 Lemma digit_facts c : is_digit c = true -> quiet_char c = true /\ nonblank c = true /\ is_blank c = false.
 Proof. destruct c as [[] [] [] [] [] [] [] []]; intros H; try discriminate H; repeat split; reflexivity. Qed.
 
@@ -108,7 +147,8 @@ Definition mat_ok (mat : string) (rho : option (nat * string)) : Prop :=
   digits_ok mat = true /\
   match rho with
   | None => all_zero mat = true
-  | Some (_, r) => all_zero mat = false /\ str_forall rho_char r = true /\ r <> ""
+  | Some (_, r) => all_zero mat = false /\ str_forall rho_char r = true /\ r <> "" /\
+                   head_sat opt_start r = false
   end.
 
 Definition rho_text (rho : option (nat * string)) : string :=
@@ -121,7 +161,12 @@ Definition opts_ok (E opts : string) : Prop :=
 
 Definition card_body (name : string) (g1 : nat) (mat : string) (rho : option (nat * string))
   (g3 : nat) (E : string) : string :=
-  name ++ blanks (S g1) ++ mat ++ rho_text rho ++ blanks (S g3) ++ E.
+  name ++ blanks (S g1) ++ mat ++ rho_text rho ++ blanks g3 ++ E.
+
+(* a blank separates the material part from the expression, except that an
+   opening parenthesis may follow a density directly ("3 -2.7(1:2)") *)
+Definition sep_ok (rho : option (nat * string)) (g3 : nat) (E : string) : Prop :=
+  g3 <> 0 \/ (rho <> None /\ head_sat (fun c => Ascii.eqb c "(") E = true).
 
 Lemma digits_ok_forall ds : digits_ok ds = true -> str_forall is_digit ds = true /\ ds <> "".
 Proof.
@@ -142,33 +187,52 @@ Proof. destruct s as [|c s]; [congruence|]. cbn. intros H _. apply andb_prop in 
 
 Theorem split_card_wellformed name g1 mat rho g3 E opts :
   digits_ok name = true -> mat_ok mat rho ->
-  str_forall expr_char E = true -> head_sat nonblank E = true -> opts_ok E opts ->
-  split_card (card_body name g1 mat rho g3 E ++ opts) = Ok (blanks (S g3) ++ E, opts).
+  str_forall expr_char E = true -> head_sat nonblank E = true -> sep_ok rho g3 E -> opts_ok E opts ->
+  split_card (card_body name g1 mat rho g3 E ++ opts) = Ok (blanks g3 ++ E, opts).
 Proof.
-  intros Hname [Hmat Hrho] HE HEhd Hopts.
+  intros Hname [Hmat Hrho] HE HEhd Hsep Hopts.
   destruct (digits_ok_forall name Hname) as [Fname Nname].
   destruct (digits_ok_forall mat Hmat) as [Fmat Nmat].
-  set (G := blanks (S g3) ++ E).
-  assert (HGhd : head_sat nonblank G = false) by reflexivity.
-  assert (HGblank : blank_head G = true) by reflexivity.
+  set (G := blanks g3 ++ E).
+  assert (HGden : head_sat density_char G = false).
+  { unfold G. destruct g3 as [|g3']; [|reflexivity]. destruct Hsep as [Hs|[_ Hs]]; [congruence|].
+    cbn [blanks append]. destruct E as [|c E']; [discriminate|]. cbn in Hs. apply Ascii.eqb_eq in Hs. now subst c. }
+  assert (HGvoid : rho = None -> head_sat nonblank G = false).
+  { intros ->. unfold G. destruct g3 as [|g3']; [|reflexivity]. destruct Hsep as [Hs|[Hs _]]; congruence. }
   assert (ENe : E <> "") by (destruct E; [discriminate|discriminate]).
-  (* the text before the options is quiet *)
-  assert (Qrho : str_forall quiet_char (rho_text rho) = true).
-  { destruct rho as [[g2 r]|]; [|reflexivity]. cbn [rho_text]. rewrite str_forall_app, blanks_quiet.
-    destruct Hrho as (_ & Hr & _). cbn [andb].
-    apply (str_forall_impl rho_char); [|exact Hr]. intros c Hc. now destruct (rho_char_facts c Hc). }
-  assert (Qbody : str_forall quiet_char (card_body name g1 mat rho g3 E) = true).
-  { unfold card_body. rewrite !str_forall_app, !blanks_quiet, Qrho.
-    rewrite (str_forall_impl is_digit quiet_char name (fun c Hc => proj1 (digit_facts c Hc)) Fname).
-    rewrite (str_forall_impl is_digit quiet_char mat (fun c Hc => proj1 (digit_facts c Hc)) Fmat).
-    rewrite (str_forall_impl expr_char quiet_char E expr_char_quiet HE). reflexivity. }
+  (* nowhere before the options a ')' or blank is followed by a letter or '*' *)
+  assert (Qf : forall (p : ascii -> bool) t, (forall c, p c = true -> opt_start c = false) ->
+               str_forall p t = true -> pq t = true /\ head_sat opt_start t = false).
+  { intros p t Hp Ht. split; [now apply (pq_of_forall p)|].
+    destruct t as [|c t']; [reflexivity|]. cbn in Ht. apply andb_prop in Ht. destruct Ht as [Hc _]. cbn. now apply Hp. }
+  assert (Qq : forall c, quiet_char c = true -> opt_start c = false) by (intros c Hc; now apply negb_true_iff in Hc).
+  assert (Qd : forall c, is_digit c = true -> opt_start c = false) by (intros c Hc; apply Qq; now destruct (digit_facts c Hc)).
+  assert (Qe : forall c, expr_char c = true -> opt_start c = false) by (intros c Hc; apply Qq; now apply expr_char_quiet).
+  destruct (Qf _ E Qe HE) as [PE HhE].
+  assert (PG : pq G = true /\ head_sat opt_start G = false).
+  { unfold G. destruct g3 as [|g3']; [cbn [blanks append]; auto|]. split; [|reflexivity].
+    apply pq_app; auto. exact (proj1 (Qf _ _ Qq (blanks_quiet (S g3')))). }
+  destruct PG as [PG HhG].
+  assert (PR2 : pq (rho_text rho ++ G) = true /\ head_sat opt_start (rho_text rho ++ G) = false).
+  { destruct rho as [[g2 r]|]; [|cbn [rho_text append]; auto]. destruct Hrho as (_ & Hr & Hrne & Hrhd).
+    cbn [rho_text]. rewrite str_app_assoc. split; [|reflexivity].
+    apply pq_app; [exact (proj1 (Qf _ _ Qq (blanks_quiet (S g2))))| |now rewrite head_sat_app].
+    apply pq_app; auto. apply pq_no_before. apply (str_forall_impl rho_char); [|exact Hr].
+    intros c Hc. now destruct (rho_char_facts c Hc). }
+  destruct PR2 as [PR2 HhR2].
+  assert (Qbody : pq (card_body name g1 mat rho g3 E) = true).
+  { unfold card_body. fold G.
+    apply pq_app; [exact (proj1 (Qf _ _ Qd Fname))| |reflexivity].
+    apply pq_app; [exact (proj1 (Qf _ _ Qq (blanks_quiet (S g1))))| |].
+    - apply pq_app; [exact (proj1 (Qf _ _ Qd Fmat))|exact PR2|exact HhR2].
+    - rewrite head_sat_app by exact Nmat. exact (proj2 (Qf _ _ Qd Fmat)). }
   (* options found where they are *)
   assert (Hfind : find_options (card_body name g1 mat rho g3 E ++ opts) = (card_body name g1 mat rho g3 E, opts)).
   { destruct Hopts as [->|(E0 & c & d & r & -> & Hb & -> & Hd)].
     - rewrite str_app_nil_r. now apply find_options_quiet.
     - unfold card_body in *. 
-      replace ((name ++ blanks (S g1) ++ mat ++ rho_text rho ++ blanks (S g3) ++ E0 ++ String c "") ++ String d r)
-        with ((name ++ blanks (S g1) ++ mat ++ rho_text rho ++ blanks (S g3) ++ E0) ++ String c (String d r)).
+      replace ((name ++ blanks (S g1) ++ mat ++ rho_text rho ++ blanks g3 ++ E0 ++ String c "") ++ String d r)
+        with ((name ++ blanks (S g1) ++ mat ++ rho_text rho ++ blanks g3 ++ E0) ++ String c (String d r)).
       + rewrite find_options_at; auto.
         * now rewrite ?str_app_assoc.
         * rewrite ?str_app_assoc. exact Qbody.
@@ -176,7 +240,7 @@ Proof.
   (* the material tokens *)
   set (R2 := rho_text rho ++ G).
   assert (HR2hd : head_sat nonblank R2 = false).
-  { unfold R2. destruct rho as [[g2 r]|]; reflexivity. }
+  { unfold R2. destruct rho as [[g2 r]|]; [reflexivity|]. cbn [rho_text append]. now apply HGvoid. }
   assert (Hbody : card_body name g1 mat rho g3 E = name ++ blanks (S g1) ++ mat ++ R2).
   { unfold card_body, R2, G. rewrite ?str_app_assoc. reflexivity. }
   assert (Fnb_name : str_forall nonblank name = true).
@@ -191,14 +255,17 @@ Proof.
     rewrite fields_blanks. rewrite fields_lemma; auto.
     - f_equal. f_equal. unfold R2. cbn [fields].
       destruct rho as [[g2 r]|]; cbn [rho_text].
-      + rewrite ?str_app_assoc, skip_blanks_blanks. destruct Hrho as (_ & Hr & Hrne).
+      + rewrite ?str_app_assoc, skip_blanks_blanks. destruct Hrho as (_ & Hr & Hrne & _).
         destruct r as [|c r']; [congruence|]. cbn [append str_forall] in *. apply andb_prop in Hr.
         destruct Hr as [Hc _]. destruct (rho_char_facts c Hc) as (_ & _ & Hnb). unfold nonblank in Hnb.
         apply negb_true_iff in Hnb. cbn [skip_blanks]. rewrite Hnb. reflexivity.
       + cbn [append]. unfold G. rewrite ?str_app_assoc, skip_blanks_blanks.
         destruct E as [|c E']; [congruence|]. cbn in HEhd. unfold nonblank in HEhd. apply negb_true_iff in HEhd.
         cbn [append skip_blanks]. rewrite HEhd. reflexivity.
-    - unfold R2. destruct rho as [[g2 r]|]; reflexivity. }
+    - assert (HR2ne : R2 <> "").
+      { unfold R2, G. destruct rho as [[g2 r]|]; [discriminate|]. cbn [rho_text append].
+        destruct g3; [|discriminate]. exact ENe. }
+      rewrite head_sat_app by exact HR2ne. exact HR2hd. }
   rewrite Hfields. cbn [Nat.ltb Nat.leb]. rewrite Hfind. rewrite Hbody.
   rewrite (skip_blanks_nonblank_head (name ++ _)) by (rewrite head_sat_app by assumption; now apply head_forall).
   rewrite <- all_digits_forall in Fname.
@@ -221,7 +288,7 @@ Proof.
     by (rewrite Emat; reflexivity).
   rewrite Hmat_digits. cbn [negb].
   destruct rho as [[g2 r]|].
-  - destruct Hrho as (Hz & Hr & Hrne). rewrite Hz.
+  - destruct Hrho as (Hz & Hr & Hrne & _). rewrite Hz.
     unfold R2. cbn [rho_text]. rewrite ?str_app_assoc. cbn [blank_head blanks append negb].
     change (String " " (blanks g2 ++ r ++ G)) with (blanks (S g2) ++ r ++ G). rewrite skip_blanks_blanks.
     assert (Fr_nb : head_sat nonblank (r ++ G) = true).
@@ -229,7 +296,7 @@ Proof.
       apply (str_forall_impl rho_char); [|exact Hr]. intros c Hc. now destruct (rho_char_facts c Hc) as (_ & _ & ?). }
     rewrite (skip_blanks_nonblank_head _ Fr_nb).
     rewrite (span_while_app density_char r G); [|
-      apply (str_forall_impl rho_char); [|exact Hr]; intros c Hc; now destruct (rho_char_facts c Hc) as (_ & ? & _)|reflexivity].
+      apply (str_forall_impl rho_char); [|exact Hr]; intros c Hc; now destruct (rho_char_facts c Hc) as (_ & ? & _)|exact HGden].
     destruct r; [congruence|reflexivity].
   - rewrite Hrho. unfold R2. reflexivity.
 Qed.
@@ -292,14 +359,14 @@ Theorem card_geometry name g1 mat rho g3 (e : mexpr) w r trail opts :
   let ws := (0, w) :: r in
   digits_ok name = true -> mat_ok mat rho ->
   wf_written ws = true -> tokens_written ws = toks 0 e ->
-  opts_ok (render ws trail) opts ->
+  sep_ok rho g3 (render ws trail) -> opts_ok (render ws trail) opts ->
   exists geom, split_card (card_body name g1 mat rho g3 (render ws trail) ++ opts) = Ok (geom, opts) /\
                get_ast geom = psem e.
 Proof.
-  cbv zeta. intros Hname Hmat Hw Ht Hopts.
+  cbv zeta. intros Hname Hmat Hw Ht Hsep Hopts.
   assert (Hwt : wf_tok w = true).
   { cbn [wf_written] in Hw. apply andb_prop in Hw. destruct Hw as [Hw _]. apply andb_prop in Hw. now destruct Hw. }
-  exists (blanks (S g3) ++ render ((0, w) :: r) trail). split.
+  exists (blanks g3 ++ render ((0, w) :: r) trail). split.
   - apply split_card_wellformed; auto.
     + now apply render_expr.
     + now apply render_head.
